@@ -200,6 +200,10 @@ type sqlStmt struct {
 	limit     sqlExpr
 	returning []sqlExpr
 	nparams   int
+	// select ... FROM table alias [INNER] JOIN joinTable joinAlias ON joinOn
+	joinTable string
+	joinAlias string
+	joinOn    sqlExpr
 }
 
 type sqlSet struct {
@@ -272,6 +276,19 @@ func sqlParse(src string) *sqlStmt {
 		st.table = p.ident()
 		if t := p.peek(); t.kind == "id" && !sqlReserved[t.s] {
 			st.alias = p.ident()
+		}
+		if p.kw("inner") {
+			if !p.isKw("join") {
+				p.fail("inner")
+			}
+		}
+		if p.kw("join") {
+			st.joinTable = p.ident()
+			if t := p.peek(); t.kind == "id" && !sqlReserved[t.s] {
+				st.joinAlias = p.ident()
+			}
+			p.want("on")
+			st.joinOn = p.expr()
 		}
 		for _, bad := range []string{"join", "inner", "left", "group", "union"} {
 			if p.isKw(bad) {
@@ -838,6 +855,11 @@ func (w *Worker) sqlEval(e sqlExpr, env *sqlEnv) sqlVal {
 		if env.row == nil {
 			panic(pathAbort{"unsupported", "sql: column reference outside a row context: " + e.name})
 		}
+		if e.table != "" {
+			if v, ok := env.row.cells[e.table+"."+e.name]; ok {
+				return v
+			}
+		}
 		v, ok := env.row.cells[e.name]
 		if !ok {
 			panic(pathAbort{"unsupported", "sql: unknown column " + e.name})
@@ -1196,7 +1218,43 @@ func (w *Worker) sqlExec(src string, args []sqlVal) ([][]sqlVal, int, Value) {
 	switch st.kind {
 	case "select":
 		var sel []*sqlRow
-		for _, r := range t.rows {
+		rows := t.rows
+		if st.joinTable != "" {
+			// inner join: nested loop over both tables; the joined row carries
+			// every column as alias.name, and as a bare name when unambiguous
+			// (the first table wins a clash)
+			t2 := w.sqlTableOf(db, st.joinTable)
+			a1, a2 := st.alias, st.joinAlias
+			if a1 == "" {
+				a1 = st.table
+			}
+			if a2 == "" {
+				a2 = st.joinTable
+			}
+			rows = nil
+			for _, r1 := range t.rows {
+				for _, r2 := range t2.rows {
+					j := &sqlRow{cells: map[string]sqlVal{}, id: r1.id*100000 + r2.id}
+					for k, v := range r2.cells {
+						j.cells[k] = v
+						j.cells[a2+"."+k] = v
+					}
+					for k, v := range r1.cells {
+						j.cells[k] = v
+						j.cells[a1+"."+k] = v
+					}
+					if w.sqlMatch(st.joinOn, &sqlEnv{row: j, args: args}) {
+						rows = append(rows, j)
+					}
+				}
+			}
+			for _, c := range st.cols {
+				if call, ok := c.(sqlCall); ok && call.star {
+					panic(pathAbort{"unsupported", "sql: * in a join: " + src})
+				}
+			}
+		}
+		for _, r := range rows {
 			if w.sqlMatch(st.where, &sqlEnv{row: r, args: args}) {
 				sel = append(sel, r)
 			}
